@@ -22,6 +22,14 @@ Theorem C03_failed_tx_is_identity :
 Proof. exact failed_tx_is_identity. Qed.
 Print Assumptions C03_failed_tx_is_identity.
 
+Theorem C03_nonfatal_failure_is_identity :
+  forall s c s' e,
+    exec_tx s c = (s', OutErr (ENonFatal e)) ->
+    s' = s /\ blackburn s = true /\
+    exists k cap, In (AIbcRelayFailing k, cap) (ct_actions c).
+Proof. exact nonfatal_failure_is_identity. Qed.
+Print Assumptions C03_nonfatal_failure_is_identity.
+
 Theorem C03_nonce_monotone :
   forall s ops s' outs x,
     run s ops = (s', outs) -> nonce s x <= nonce s' x.
